@@ -141,6 +141,13 @@ fn eval_sign<'a>(args: &[Option<Value<'a>>]) -> Option<Value<'a>> {
 }
 
 fn eval_mod<'a>(args: &[Option<Value<'a>>]) -> Option<Value<'a>> {
+    if let (Some(Some(Value::Int(a))), Some(Some(Value::Int(b)))) = (args.first(), args.get(1)) {
+        // exact integer remainder: going through f64 loses the low bits above 2^53
+        if *b == 0 {
+            return Some(Value::Null);
+        }
+        return Some(Value::Int(a.wrapping_rem(*b)));
+    }
     let a = get_float(args.first()?)?;
     let b = get_float(args.get(1)?)?;
 
@@ -187,6 +194,11 @@ fn eval_round<'a>(args: &[Option<Value<'a>>]) -> Option<Value<'a>> {
     let val = get_float(args.first()?)?;
     let decimals = args.get(1).and_then(get_int).unwrap_or(0);
 
+    if let (Some(Some(Value::Int(n))), true) = (args.first(), decimals >= 0) {
+        // an integer has no decimals to round: keep it exact instead of going through f64
+        return Some(Value::Int(*n));
+    }
+
     let multiplier = 10_f64.powi(decimals as i32);
     let rounded = (val * multiplier).round() / multiplier;
 
@@ -200,6 +212,10 @@ fn eval_round<'a>(args: &[Option<Value<'a>>]) -> Option<Value<'a>> {
 fn eval_truncate<'a>(args: &[Option<Value<'a>>]) -> Option<Value<'a>> {
     let val = get_float(args.first()?)?;
     let decimals = args.get(1).and_then(get_int).unwrap_or(0);
+
+    if let (Some(Some(Value::Int(n))), true) = (args.first(), decimals >= 0) {
+        return Some(Value::Int(*n));
+    }
 
     let multiplier = 10_f64.powi(decimals as i32);
     let truncated = (val * multiplier).trunc() / multiplier;
